@@ -116,7 +116,11 @@ def rule_fmt(ctx: Ctx) -> RuleResult:
     else:
         res.violation([NEXT, "increment"], "NextGetter does not increment the version number by exactly one", f.relpath, f.node.lineno)
     # no version -> starts from 0 (first version is 1); '*' / '>' -> the last existing one
-    zero = [d for d in flow.all_defs if d.var == "version" and isinstance(d.value, ast.Constant) and d.value.value == 0] or [
+    inc_args = set()
+    for i_ in incs:
+        for a_ in i_.left.args[:1]:
+            inc_args |= {x.id for x in ast.walk(a_) if isinstance(x, ast.Name)}
+    zero = [d for d in flow.all_defs if (d.var == "version" or d.var in inc_args) and isinstance(d.value, ast.Constant) and d.value.value == 0] or [
         r for g in family(ctx, f) for r in own_nodes(g.node) if isinstance(r, ast.Return) and isinstance(r.value, ast.Constant) and r.value.value == 0] or [
         i for i in incs if i.left.args and isinstance(i.left.args[0], ast.Constant) and i.left.args[0].value == 0]
     last = [n for g in family(ctx, f) for n in own_nodes(g.node) if isinstance(n, ast.Call) and isinstance(n.func, ast.Attribute)
